@@ -269,12 +269,12 @@ def gen_sections(ctx, cases):
                 sht = rng.choice([1, 1, 7, 14, 0x60000005, 0x70000001])
                 flags = rng.choice([0, 2, 3, 6, 0x30, 0x402])
                 cases.append(('sec_plain', [cfg, sht, flags, rng.getrandbits(20), off, size, rng.choice([0, 1, 4, 16]),
-                                            length, rng.getrandbits(8), draw_orders(rng)]))
+                                            length, rng.getrandbits(8), draw_orders(rng), draw_shdr_free(rng, is64)]))
             # no-bits: the offset carries no meaning, the file holds nothing for it
             off = rng.choice([0, BASE, BASE + 5, 10 ** 6, 2 ** 31 + 5])
             cases.append(('sec_nobits', [cfg, rng.choice([3, 0x403, 2, 0]), rng.getrandbits(20), off, size,
                                          rng.choice([1, 8, 32]), BASE + rng.choice([0, 10]), rng.getrandbits(8),
-                                         draw_orders(rng)]))
+                                         draw_orders(rng), draw_shdr_free(rng, is64)]))
     # compressed
     psizes = [0, 1, 2, 63, 64, 65, 127, 128, 129, 255, 256, 4095, 4096] + ctx.scale([9000], [20000, 33000, 45000])
     lvl = 0
@@ -303,7 +303,8 @@ def gen_sections(ctx, cases):
                     cases.append(('sec_comp', [d['cfg'], d['sht'], d['flags'], d['addr'], d['off'], d['align'],
                                                d['ch_type'], d['res'], d['declared'], d['ch_align'], d['zs'], d['oracle'],
                                                d['trailing'], d['size_adj'], d['tail'], d['seed'], d['level'],
-                                               draw_orders(rng, big=len(d['zs']) > 5000 or n > 5000)]))
+                                               draw_orders(rng, big=len(d['zs']) > 5000 or n > 5000),
+                                               draw_shdr_free(rng, is64)]))
                 emit()
                 if rep == 0:
                     # declared size smaller / larger than the inflated size
@@ -326,7 +327,8 @@ def gen_sections(ctx, cases):
                 z = zlib.compress(p, level)
                 cases.append(('sec_comp', [cfg, 1, SHF_COMPRESSED, 0, BASE, 1 + level % 2 * 3, 1,
                                            0xa5a5a5a5 if cfg[0] else 0, len(p), 8 << (level % 3), z,
-                                           ['valid', z, p], b'', 0, 2, level, level, draw_orders(rng)]))
+                                           ['valid', z, p], b'', 0, 2, level, level, draw_orders(rng),
+                                           draw_shdr_free(rng, cfg[0])]))
     # the length of the COMPRESSED stream around power-of-two buffer sizes (an implementation that feeds
     # the inflater piecewise must not depend on where the stream tail - end-of-block bits, Adler-32 - falls):
     # stored blocks (level 0: |z| = n + 2 + 5 per 65535-byte block + 4) and incompressible data at level 6
@@ -341,11 +343,28 @@ def gen_sections(ctx, cases):
                     z = zlib.compress(pl, level)
                     cases.append(('sec_comp', [cfg, 1, SHF_COMPRESSED, 0, BASE, 1, 1, 0, len(pl), rng.choice([4, 8, 64]), z,
                                                ['valid', z, pl], b'', 0, rng.choice([0, 3]), rng.getrandbits(8), level,
-                                               draw_orders(rng, big=True)]))
+                                               draw_orders(rng, big=True), draw_shdr_free(rng, cfg[0])]))
     # compression header cut by the end of the file (construction fails)
     for cfg in cfgs[:2] + cfgs[2:3]:
         for cut in (0, 1, STD[cfg[0]]['ch'] - 1):
-            cases.append(('sec_chdr_cut', [cfg, BASE, cut, draw_orders(rng)]))
+            cases.append(('sec_chdr_cut', [cfg, BASE, cut, draw_orders(rng), draw_shdr_free(rng, cfg[0])]))
+
+
+def draw_phdr_free(rng, is64, filesz):
+    """[p_flags, p_vaddr, p_paddr, p_memsz, p_align]: the program header fields that do not locate the file extent,
+    drawn independently of it.  p_memsz below / equal to / above p_filesz and 0 (segments that occupy file space
+    without being mapped: PT_NOTE of core files, Solaris PT_DYNAMIC, PT_RISCV_ATTRIBUTES), and huge."""
+    top = 2 ** (64 if is64 else 32)
+    memsz = rng.choice([0, 0, max(filesz - 1, 0), filesz // 2, filesz, filesz, filesz + 7, top - 1])
+    return [rng.choice([0, 4, 5, 6, 7, 0xf0000001]), rng.choice([0, 0x1000, rng.randrange(top), top - 0x1000]),
+            rng.choice([0, 0x2000, rng.randrange(top)]), memsz, rng.choice([0, 1, 4, 8, 0x1000, top // 2, top - 1])]
+
+
+def draw_shdr_free(rng, is64):
+    """[sh_link, sh_info, sh_entsize]: section header fields that say nothing about the contents"""
+    top = 2 ** (64 if is64 else 32)
+    return [rng.choice([0, 0, 1, 2, 77, 0xffff]), rng.choice([0, 1, rng.getrandbits(32)]),
+            rng.choice([0, 0, 1, 8, 24, top - 1])]
 
 
 def draw_sched(rng):
@@ -392,6 +411,22 @@ def gen_strings(ctx, cases):
             # a table longer than 4096 bytes: offsets far from the table start
             strs = [b''] + [rs(rng.choice([5, 17, 64, 100, 250]), False) for _ in range(60)]
             cases.append(('strtab', [cfg, BASE + rng.randint(0, 63), strs, True, 3, rng.getrandbits(8), draw_sched(rng)]))
+        # "whatever its length": strings of 65535 / 65536 / 65537 / 70000 bytes (1024 read chunks and beyond).
+        # Every offset of such a table would be 10^5 lookups of 10^3 reads each: the lookups are listed instead
+        # (8th element): starts, interiors, chunk-boundary distances from the terminator, the neighbours
+        # one table holds all four (quick: in one configuration per run, chosen by the seed)
+        if ctx.tier != 'quick' or cfg is cfgs[ctx.seed % len(cfgs)]:
+            strs = [b'', b'ab'] + [rs(n, False) for n in (65535, 65536, 65537, 70000)] + [b'tail']
+            offs, pos = {0, 1, 3}, 0
+            for x in strs:
+                n = len(x)
+                if n > 1000:
+                    offs |= {pos, pos + 1, pos + 63, pos + 64, pos + n - 65537, pos + n - 65536, pos + n - 65535,
+                             pos + n - 4097, pos + n - 64, pos + n - 1, pos + n}
+                pos += n + 1
+            offs |= {pos - 5, pos - 1}
+            offs = sorted(o for o in offs if 0 <= o < pos)
+            cases.append(('strtab', [cfg, BASE + rng.randint(0, 63), strs, True, 2, rng.getrandbits(8), draw_sched(rng), offs]))
         # malformed: last string runs into the end of the file / into the following bytes
         cases.append(('strtab', [cfg, BASE + 3, [b'', b'abc', rs(70, False)], False, 0, 1]))
         cases.append(('strtab', [cfg, BASE + 3, [b'', b'abc', rs(70, False)], False, 9, 1]))
@@ -413,22 +448,25 @@ def gen_segments(ctx, cases):
                 ops = [rng.choice([0, 0, 1, 2]) for _ in range(rng.randint(1, 4))]
                 if 0 not in ops:
                     ops.insert(rng.randint(0, len(ops)), 0)
-                cases.append(('seg_data', [cfg, rng.choice([1, 1, 4, 7, 0x6474e551, 0x12345]), off, size, length,
-                                           rng.getrandbits(8), rng.randrange(4), ops]))
+                cases.append(('seg_data', [cfg, rng.choice([1, 1, 2, 4, 4, 7, 0x6474e551, 0x70000003, 0x12345]), off, size, length,
+                                           rng.getrandbits(8), rng.randrange(4), ops, draw_phdr_free(rng, cfg[0], size)]))
         for n in [0, 1, 2, 15, 63, 64, 65, 127, 128, 200]:
             path = (b'/lib64/ld-linux-x86-64.so.2' * 9)[:n] if n % 2 else ('/élib/ld.so'.encode() * 30)[:n]
             path = path.decode('utf-8', errors='ignore').encode()
             cases.append(('interp', [cfg, BASE + rng.choice([0, 3]), path, True, rng.choice([0, 4]), rng.getrandbits(8), 0,
-                                     rng.choice([[0], [1, 0], [0, 1, 0], [0, 0], [1, 1, 0]])]))
+                                     rng.choice([[0], [1, 0], [0, 1, 0], [0, 0], [1, 1, 0]]),
+                                     draw_phdr_free(rng, cfg[0], len(path) + 1)]))
             # p_filesz is a free header field: the path is the C string at p_offset whatever the segment's
             # declared size (larger: bytes after the terminator lie inside the segment; smaller: the string
             # runs past it).  7th element = p_filesz - (len(path) + 1)
             extra = rng.choice([1, 2, 7, 40])
             cases.append(('interp', [cfg, BASE + rng.choice([0, 3]), path, True, extra + rng.choice([0, 4]),
-                                     rng.getrandbits(8), extra, rng.choice([[0], [1, 0], [0, 1, 0]])]))
+                                     rng.getrandbits(8), extra, rng.choice([[0], [1, 0], [0, 1, 0]]),
+                                     draw_phdr_free(rng, cfg[0], len(path) + 1 + extra)]))
             if n >= 2:
                 cases.append(('interp', [cfg, BASE, path, True, rng.choice([0, 4]), rng.getrandbits(8),
-                                         -rng.randint(1, n), rng.choice([[0], [1, 0], [0, 1, 0]])]))
+                                         -rng.randint(1, n), rng.choice([[0], [1, 0], [0, 1, 0]]),
+                                         draw_phdr_free(rng, cfg[0], n)]))
         cases.append(('interp', [cfg, BASE, b'/lib/ld.so.1', False, 0, 3]))
 
 
@@ -759,7 +797,12 @@ def run_sec_orders(ctx, img, orders, extent=None):
                     d = impl_call(sec.data)
                     ans.append(['ok', d] if isinstance(d, bytes) else d)
             return ['ok', ans]
-        out.append(impl_call(one))
+        r = impl_call(one)
+        if r[0] == 'err':
+            # constructing the section raised (malformed file, outside the property): that ELFFile is not used
+            # again - what a later call on it answers (a half-filled name map ...) is not C02's business
+            shared.clear()
+        out.append(r)
     return out
 
 
@@ -871,22 +914,28 @@ def evaluate(ctx, cases):
         w.kind, w.a, w.plan, w.extra = kind, a, None, {}
         if kind == 'sec_plain':
             cfg, sht, flags, addr, off, size, align, length, seed = a[:9]
-            w.plan = Img(cfg, [dict(type=sht, flags=flags, addr=addr, offset=off, size=size, addralign=align)], [],
-                         length=length, seed=seed)
+            fr = a[10] if len(a) > 10 else [0, 0, 0]
+            w.plan = Img(cfg, [dict(type=sht, flags=flags, addr=addr, offset=off, size=size, addralign=align,
+                                    link=fr[0], info=fr[1], entsize=fr[2])], [], length=length, seed=seed)
         elif kind == 'sec_nobits':
             cfg, flags, addr, off, size, align, length, seed = a[:8]
-            w.plan = Img(cfg, [dict(type=8, flags=flags, addr=addr, offset=off, size=size, addralign=align)], [],
-                         length=length, seed=seed)
+            fr = a[9] if len(a) > 9 else [0, 0, 0]
+            w.plan = Img(cfg, [dict(type=8, flags=flags, addr=addr, offset=off, size=size, addralign=align,
+                                    link=fr[0], info=fr[1], entsize=fr[2])], [], length=length, seed=seed)
         elif kind == 'sec_comp':
             (cfg, sht, flags, addr, off, align, ch_type, res, declared, ch_align, zs, oracle, trailing, size_adj, tail,
              seed, level) = a[:17]
             body_len = STD[bool(cfg[0])]['ch'] + len(zs) + len(trailing)
+            fr = a[18] if len(a) > 18 else [0, 0, 0]
             w.plan = Img(cfg, [dict(type=sht, flags=flags, addr=addr, offset=off, size=body_len + size_adj,
-                                    addralign=align)], [], length=off + body_len + tail, seed=seed)
+                                    addralign=align, link=fr[0], info=fr[1], entsize=fr[2])], [],
+                         length=off + body_len + tail, seed=seed)
             w.plan.reqs.append(['enc_chdr', bool(cfg[1]), bool(cfg[0]), ch_type, res, declared, ch_align])
         elif kind == 'sec_chdr_cut':
             cfg, off, cut = a[:3]
-            w.plan = Img(cfg, [dict(type=1, flags=SHF_COMPRESSED, addr=0, offset=off, size=100)], [], length=off + cut, seed=3)
+            fr = a[4] if len(a) > 4 else [0, 0, 0]
+            w.plan = Img(cfg, [dict(type=1, flags=SHF_COMPRESSED, addr=0, offset=off, size=100, link=fr[0], info=fr[1],
+                                    entsize=fr[2])], [], length=off + cut, seed=3)
         elif kind == 'strtab':
             cfg, off, strs, final_nul, tail, seed = a[:6]
             tbl = b'\0'.join(strs) + (b'\0' if final_nul else b'')
@@ -895,12 +944,15 @@ def evaluate(ctx, cases):
                          length=off + len(tbl) + tail, seed=seed)
         elif kind == 'seg_data':
             cfg, ptype, off, size, length, seed = a[:6]
-            w.plan = Img(cfg, [], [(ptype, 4, off, 0x1000, 0x2000, size, size + 7, 1)], length=length, seed=seed)
+            fl, va, pa, msz, al = a[8] if len(a) > 8 else (4, 0x1000, 0x2000, size + 7, 1)
+            w.plan = Img(cfg, [], [(ptype, fl, off, va, pa, size, msz, al)], length=length, seed=seed)
         elif kind == 'interp':
             cfg, off, path, term, tail, seed = a[:6]
             fsz_delta = a[6] if len(a) > 6 else 0
             blob = path + (b'\0' if term else b'')
-            w.plan = Img(cfg, [], [(3, 4, off, 0x1000, 0x2000, len(blob) + fsz_delta, len(blob) + fsz_delta + 3, 1)],
+            fsz = len(blob) + fsz_delta
+            fl, va, pa, msz, al = a[8] if len(a) > 8 else (4, 0x1000, 0x2000, fsz + 3, 1)
+            w.plan = Img(cfg, [], [(3, fl, off, va, pa, fsz, msz, al)],
                          blobs=[(off, blob)],
                          length=off + len(blob) + tail, seed=seed)
         elif kind == 'addr':
@@ -980,7 +1032,8 @@ def evaluate(ctx, cases):
         elif kind == 'strtab':
             off = a[1]
             sched = a[6] if len(a) > 6 else [0, 0]
-            offs = sched_offsets(range(len(w.extra['tbl']) + (0 if a[3] else 1)), sched)
+            base = a[7] if len(a) > 7 else range(len(w.extra['tbl']) + (0 if a[3] else 1))
+            offs = sched_offsets(base, sched)
             w.extra['offs'], w.extra['data_every'] = offs, sched[1]
             w.mi = ask(['get_strings', w.img, off, offs])
             w.si = ask(['spec_strings', w.img, off, offs])
@@ -990,7 +1043,8 @@ def evaluate(ctx, cases):
                 w.extra['dmi'] = ask(['sec', w.img, le, is64, mach, 3, 0, 0, off, len(w.extra['tbl']), 1, o])
                 w.extra['dsi'] = ask(['spec_sec', w.img, le, is64, 3, 0, off, len(w.extra['tbl']), 1, o])
         elif kind == 'seg_data':
-            w.mi = ask(['seg_data', w.img, a[2], a[3]])
+            # the model is the Segment OBJECT built from the program header in the image (free fields and all)
+            w.mi = ask(['seg_data_at', w.img, le, is64, pl.phoff])
             w.si = ask(['spec_extent', w.img, a[2], a[3]])
             w.extra['how'], w.extra['ops'] = (a[6], a[7]) if len(a) > 7 else (0, [0])
             g = list(pl.segments[0])
@@ -999,12 +1053,12 @@ def evaluate(ctx, cases):
                 if code in w.extra['ops']:
                     w.extra['sis'][code] = (ask(['sis_gen', mach, g, sh]), ask(['spec_sis', g, sh]))
         elif kind == 'interp':
-            w.mi = ask(['interp', w.img, a[1]])
+            w.mi = ask(['interp_at', w.img, le, is64, pl.phoff])
             w.si = ask(['spec_string', w.img, a[1]])
             w.extra['ops'] = a[7] if len(a) > 7 else [0]
             if 1 in w.extra['ops']:
                 fsz = pl.segments[0][5]
-                w.extra['dmi'] = ask(['seg_data', w.img, a[1], fsz])
+                w.extra['dmi'] = ask(['seg_data_at', w.img, le, is64, pl.phoff])
                 w.extra['dsi'] = ask(['spec_extent', w.img, a[1], fsz])
         elif kind == 'addr':
             cfg, phgap, phextra, segs, start, size = a
@@ -1132,12 +1186,17 @@ def evaluate(ctx, cases):
             model = [mstr, [mdata] * ndata]
             spec = [[utf8_canon(x[1]) for x in sp], [sdata] * ndata] if in_dom else model
             ctx.bump('strtab_offsets', len(offs) // 100 * 100)
+            ctx.bump('strtab_longest_string', max(len(x) for x in a[2]) // 8192 * 8192)
             ctx.bump('strtab_order', 'ascending' if not (len(a) > 6 and a[6][0]) else 'descending' if a[6][0] == 1 else 'shuffled')
             ctx.record(kind, a, impl=impl, spec=spec, model=model, in_domain=in_dom,
                        nontrivial=any(len(s) >= 63 for s in a[2]))
         elif kind == 'seg_data':
             mdata = answers[w.mi]
+            mdata = mdata[1] if isinstance(mdata, list) and mdata[0] == 'ok' else mdata
             sp = answers[w.si]
+            if len(a) > 8:
+                ctx.bump('p_memsz_vs_p_filesz', 'zero' if a[8][3] == 0 and a[3] else 'smaller' if a[8][3] < a[3] else
+                         'equal' if a[8][3] == a[3] else 'larger')
             in_dom = sp != 'none'
             sdata = sp[1] if in_dom else mdata
             how, ops = w.extra['how'], w.extra['ops']
@@ -1182,6 +1241,7 @@ def evaluate(ctx, cases):
             ops = w.extra['ops']
             if 1 in ops:
                 mdata, sd = answers[w.extra['dmi']], answers[w.extra['dsi']]
+                mdata = mdata[1] if isinstance(mdata, list) and mdata[0] == 'ok' else mdata
                 sdata = sd[1] if sd != 'none' else mdata      # extent past the end of the file: not this property's
             else:
                 mdata = sdata = None
